@@ -303,6 +303,16 @@ func (v RawRef) Storable(atree.SlabStorage, atree.Address, uint32) (atree.Storab
 	return atree.SlabIDStorable(v), nil
 }
 
+// ---- BoxedRef: a value that stores a wrapper around a slab reference in a slab of its own (C20 only):
+// the reference then lives inside a large-value ("storable") slab, not inside a container slab ----
+
+type BoxedRef atree.SlabID
+
+func (v BoxedRef) Storable(storage atree.SlabStorage, address atree.Address, _ uint32) (atree.Storable, error) {
+	inner := SomeS{atree.SlabIDStorable(v)}
+	return atree.NewStorableSlab(storage, address, inner, inner.ByteSize())
+}
+
 // ---- Type infos ----
 
 type TypeInfo struct {
